@@ -10,6 +10,7 @@ import (
 	_ "verif/checks/c11"
 	_ "verif/checks/c15"
 	_ "verif/checks/c17"
+	_ "verif/checks/c18"
 	_ "verif/checks/c19"
 	_ "verif/checks/c20"
 )
